@@ -227,7 +227,7 @@ PROPS = {
         'steps': [{'script': 'corr_plan.py', 'timeout': 1500, 'timeout_thorough': 6000},
                   {'script': 'corr_graph.py', 'timeout': 1500, 'timeout_thorough': 6000},
                   {'script': 'oracle_static.py', 'timeout': 1500, 'timeout_thorough': 6000}],
-        'required_theorems': ['C15_sharers_quantized_in_place_agree', 'C15_compatible_users_agree', 'C15_write_is_consistent',
+        'required_theorems': ['C15_sharers_quantized_in_place_agree', 'C15_check_visits_every_group_and_member', 'C15_every_operand_is_listed_under_its_buffer', 'C15_compatible_users_agree', 'C15_write_is_consistent',
                               'C15_second_write_same_bytes'],
         'rule': GRAPH_RULE + STATIC_RULE,
         'trusted_base': COMMON_TB + GRAPH_TB,
